@@ -44,6 +44,7 @@ func init() {
 			ruleRecountFilter(c, "R7")
 			ruleGroupOptionOrder(c, "R8")
 			ruleHasTraceIsNonNil(c, "R9")
+			ruleOnlyKnownConstantKeys(c, "R10")
 		},
 	})
 }
@@ -320,22 +321,14 @@ func ruleRecoverOptionFlow(c *Ctx, rule string) {
 		})
 		c.R.Add(rule, key, "store:recoverFunc=buildOption(o).recoverFunc", c.P.Pos(f.Pos()), good, ifelse(good, "the configured function is stored ("+got+")", "the constructor stores "+ifelse(got == "", "nothing", got)+" as recovery function: the option is lost"))
 	}
-	gn := c.P.MustFunc("mux.(*Group).New")
-	newRouter := c.P.MustFunc("mux.NewRouter")
-	found := false
-	an.AllInstrs(gn, func(in ssa.Instruction) {
-		call, ok := calleeIs(in, newRouter)
-		if !ok {
-			return
+	// inheritance: Group.New builds the router from (group options, own options) — shared with the option-order rule
+	{
+		sub := an.NewReport(c.R.Property)
+		cc := &Ctx{P: c.P, A: c.A, R: sub, O: c.O}
+		ruleGroupOptionOrder(cc, "X")
+		for _, o := range sub.Obls {
+			c.R.Add(rule, o.Func, o.Construct, o.At, o.OK, ifelse(o.OK, o.Msg, o.Msg+" — the group's recovery option is not inherited (or overrides the router's own)"))
 		}
-		found = true
-		t := c.O.Of(call.Args[len(call.Args)-1])
-		ops := an.FlattenConcat(t)
-		good := len(ops) == 2 && ops[0].String() == "recv.options" && ops[1].String() == "param:o"
-		c.R.Add(rule, c.fk(gn), "call:mux.NewRouter/options=group++own", c.pos(in), good, ifelse(good, "Concat(g.options, o): the group's options first, the call's own may override", "Group.New passes "+t.String()+" as options: the group's recovery option is not inherited (or overrides the router's own)"))
-	})
-	if !found {
-		c.R.Add(rule, c.fk(gn), "call:mux.NewRouter/options=group++own", c.P.Pos(gn.Pos()), false, "Group.New no longer builds the router with NewRouter")
 	}
 }
 
